@@ -15,84 +15,112 @@ use epserde::ser::{Schema, SchemaRow, SchemaWriter, Serialize, SerializeInner, W
 
 const MAXROWS: usize = 24;
 
-fn depth_of(field: &str) -> usize {
-    let b = field.as_bytes();
-    let mut d = 0;
-    let mut i = 0;
-    while i < b.len() {
-        if b[i] == b'.' { d += 1; }
-        i += 1;
+/// What a row must look like, computed by an independent numeric recorder
+/// (no strings): kind 0 = composite/primitive row of `write`, 1 = PADDING, 2 = zero-copy block.
+#[derive(Clone, Copy)]
+pub struct XRow { pub kind: u8, pub depth: usize, pub off: usize, pub size: usize, pub align: usize }
+#[derive(Clone, Copy)]
+pub struct XLog { pub r: [XRow; MAXROWS], pub n: usize }
+
+/// Recording writer: same delegation structure as rt::Probe, plus a depth
+/// counter; produces the expected rows in pre-order.
+pub struct Rec<'a, const N: usize> { pub inner: WriterWithPos<'a, Sink<N>>, pub log: XLog, pub depth: usize }
+impl<'a, const N: usize> Rec<'a, N> {
+    pub fn new(s: &'a mut Sink<N>) -> Self {
+        Self { inner: WriterWithPos::new(s), log: XLog { r: [XRow { kind: 0, depth: 0, off: 0, size: 0, align: 0 }; MAXROWS], n: 0 }, depth: 0 }
     }
-    d
+    fn push(&mut self, r: XRow) -> usize {
+        assert!(self.log.n < MAXROWS, "HARNESS: row log too small");
+        self.log.r[self.log.n] = r;
+        self.log.n += 1;
+        self.log.n - 1
+    }
 }
-fn is_padding(r: &SchemaRow) -> bool {
-    r.field.len() == 7 && r.field.as_bytes()[0] == b'P' && r.field.as_bytes()[6] == b'G' && r.align == 1
+impl<'a, const N: usize> WriteNoStd for Rec<'a, N> {
+    fn write_all(&mut self, b: &[u8]) -> epserde::ser::Result<()> { self.inner.write_all(b) }
+    fn flush(&mut self) -> epserde::ser::Result<()> { self.inner.flush() }
 }
-fn ends_with_zero(r: &SchemaRow) -> bool {
-    let b = r.field.as_bytes();
-    let n = b.len();
-    n >= 5 && b[n - 5] == b'.' && b[n - 4] == b'z' && b[n - 3] == b'e' && b[n - 2] == b'r' && b[n - 1] == b'o'
+impl<'a, const N: usize> WriteWithPos for Rec<'a, N> { fn pos(&self) -> usize { self.inner.pos() } }
+impl<'a, const N: usize> WriteWithNames for Rec<'a, N> {
+    fn align<V: MaxSizeOf>(&mut self) -> epserde::ser::Result<()> {
+        let before = self.inner.pos();
+        let r = self.inner.align::<V>();
+        let after = self.inner.pos();
+        if after != before { let d = self.depth; self.push(XRow { kind: 1, depth: d, off: before, size: after - before, align: 1 }); }
+        r
+    }
+    fn write<V: SerializeInner>(&mut self, _n: &str, value: &V) -> epserde::ser::Result<()> {
+        let d = self.depth;
+        let off = self.inner.pos();
+        let i = self.push(XRow { kind: 0, depth: d, off, size: 0, align: 0 });
+        self.depth = d + 1;
+        let r = value._serialize_inner(self);
+        self.depth = d;
+        self.log.r[i].size = self.inner.pos() - off;
+        r
+    }
+    fn write_bytes<V: SerializeInner + ZeroCopy>(&mut self, value: &[u8]) -> epserde::ser::Result<()> {
+        let d = self.depth;
+        let off = self.inner.pos();
+        self.push(XRow { kind: 2, depth: d, off, size: value.len(), align: V::max_size_of() });
+        self.inner.write_bytes::<V>(value)
+    }
 }
 
-/// Structural check of the rows against the byte stream `buf[start..end]`.
-fn check_rows(rows: &[SchemaRow], buf: &[u8], start: usize, end: usize) {
+/// The recorded schema must be, row by row, what the numeric recorder saw; the
+/// structural claims (pre-order, in-stream, tiling, zero padding, aligned
+/// blocks) are then checked on numbers only.
+fn check_rows(rows: &[SchemaRow], x: &XLog, buf: &[u8], start: usize, end: usize) {
     let n = rows.len();
-    assert!(n >= 1 && n <= MAXROWS, "HARNESS: row count within the checker's capacity");
-    // depth of each row; a PADDING row is a sibling of the row that follows it
-    let mut depth = [0usize; MAXROWS];
-    let mut i = n;
-    while i > 0 {
-        i -= 1;
-        depth[i] = if is_padding(&rows[i]) {
-            assert!(i + 1 < n, "C18: a padding row is followed by the block it pads");
-            depth[i + 1]
-        } else {
-            depth_of(&rows[i].field)
-        };
-    }
-    let base = depth[0];
-    // every row inside the stream; zero rows aligned; padding rows cover zeros
+    assert!(n == x.n, "C18: the schema has one row per write / padding / zero-copy block, in pre-order");
     let mut i = 0;
-    while i < n {
-        let r = &rows[i];
-        assert!(r.offset >= start && r.offset + r.size <= end, "C18: every row lies within the stream");
-        assert!(depth[i] >= base, "C18: rows are in pre-order below the first row");
-        if ends_with_zero(r) {
-            assert!(r.align != 0 && r.offset % r.align == 0, "C18: zero-copy block starts at a multiple of its recorded alignment");
-        }
-        if is_padding(r) {
-            let k: usize = any();
-            assume(k >= r.offset && k < r.offset + r.size);
-            assert!(buf[k] == 0, "C18: padding rows cover only zero bytes");
-        }
-        i += 1;
-    }
-    // tiling: for every depth level, consecutive siblings under the same parent are adjacent,
-    // the first child starts at the parent's offset and the last child ends at the parent's end
-    let mut i = 0;
-    while i < n {
-        // children of row i = rows j>i with depth == depth[i]+1 before the next row of depth <= depth[i]
-        let mut cursor = rows[i].offset;
-        let mut has_child = false;
-        let mut j = i + 1;
-        while j < n && depth[j] > depth[i] {
-            if depth[j] == depth[i] + 1 {
-                assert!(rows[j].offset == cursor, "C18: children tile their parent without gaps or overlaps");
-                cursor = rows[j].offset + rows[j].size;
-                has_child = true;
+    while i < MAXROWS {
+        if i < n {
+            let (r, e) = (&rows[i], &x.r[i]);
+            assert!(r.offset == e.off && r.size == e.size, "C18: row offset/size describe the bytes that were written for it");
+            assert!(r.offset >= start && r.offset + r.size <= end, "C18: every row lies within the stream");
+            if e.kind == 2 {
+                assert!(r.align == e.align && r.align != 0 && r.offset % r.align == 0, "C18: zero-copy block starts at a multiple of its recorded alignment");
             }
-            j += 1;
-        }
-        if has_child {
-            assert!(cursor == rows[i].offset + rows[i].size, "C18: children cover their parent exactly");
+            if e.kind == 1 {
+                assert!(r.align == 1, "C18: padding rows have alignment 1");
+                let k: usize = any();
+                assume(k >= r.offset && k < r.offset + r.size);
+                assert!(buf[k] == 0, "C18: padding rows cover only zero bytes");
+            }
         }
         i += 1;
     }
-    // top-level rows tile [start, end)
+    // tiling on the recorder's depths: children of row i are the following rows of depth d+1 up to the next row of depth <= d
+    let mut i = 0;
+    while i < MAXROWS {
+        if i < n {
+            let d = x.r[i].depth;
+            let mut cursor = rows[i].offset;
+            let mut has_child = false;
+            let mut open = true;
+            let mut j = 0;
+            while j < MAXROWS {
+                if j > i && j < n && open {
+                    if x.r[j].depth <= d { open = false; }
+                    else if x.r[j].depth == d + 1 {
+                        assert!(rows[j].offset == cursor, "C18: children tile their parent without gaps or overlaps");
+                        cursor = rows[j].offset + rows[j].size;
+                        has_child = true;
+                    }
+                }
+                j += 1;
+            }
+            if has_child { assert!(cursor == rows[i].offset + rows[i].size, "C18: children cover their parent exactly"); }
+        }
+        i += 1;
+    }
+    // top-level rows (depth of the first row) tile [start, end)
+    let base = x.r[0].depth;
     let mut cursor = start;
     let mut i = 0;
-    while i < n {
-        if depth[i] == base {
+    while i < MAXROWS {
+        if i < n && x.r[i].depth == base {
             assert!(rows[i].offset == cursor, "C18: top-level rows tile the stream");
             cursor = rows[i].offset + rows[i].size;
         }
@@ -129,7 +157,16 @@ fn schema_inner<T: SerializeInner, const N: usize, const PRE: usize>(x: &T) {
     let k: usize = any();
     assume(k < N);
     assert!(a.buf[k] == b.buf[k], "C18: schema recording writes byte-for-byte the same stream");
-    check_rows(&schema.0, &b.buf, PRE, nb);
+    let mut c = Sink::<N>::new();
+    let xlog;
+    {
+        let mut rec = Rec::new(&mut c);
+        rec.write_all(&[0xAA; PRE]).unwrap();
+        let r = WriteWithNames::write(&mut rec, "ROOT", x);
+        assert!(r.is_ok(), "HARNESS: recorder run succeeds");
+        xlog = rec.log;
+    }
+    check_rows(&schema.0, &xlog, &b.buf, PRE, nb);
     assert!(schema.0[0].offset == PRE && schema.0[0].size == nb - PRE, "C18: the root row spans the value");
     let csv = schema.to_csv();
     let dbg = schema.debug(&b.buf[..nb]);
@@ -181,7 +218,15 @@ pub fn c18_toplevel_u32() {
     let k: usize = any();
     assume(k < 64);
     assert!(a.buf[k] == b.buf[k], "C18: schema recording writes byte-for-byte the same stream");
-    check_rows(&schema.0, &b.buf, 0, na);
+    let mut c = Sink::<64>::new();
+    let xlog;
+    {
+        let mut rec = Rec::new(&mut c);
+        let r = x.serialize_on_field_write(&mut rec);
+        assert!(r.is_ok(), "HARNESS: recorder run succeeds");
+        xlog = rec.log;
+    }
+    check_rows(&schema.0, &xlog, &b.buf, 0, na);
     let csv = schema.to_csv();
     let dbg = schema.debug(&b.buf[..na]);
     core::mem::forget(csv);
